@@ -50,11 +50,18 @@ def run_impl(hist, mats, m, k, max_norm, dt):
     """hist: list of matrix indices or None (= reset).  Returns per call: (output list | error,
     number of solver invocations)."""
     agg = NashMTL(n_tasks=m, max_norm=max_norm, update_weights_every=k)
+    # a SECOND live aggregator with the same n_tasks is called on another matrix between any two calls of the
+    # first one: instances do not share state
+    other = NashMTL(n_tasks=m, max_norm=1.0, update_weights_every=1)
     res = []
     for h in hist:
         if h is None:
             agg.reset()
             continue
+        try:
+            other(A.to_tensor(mats[(h + 1) % len(mats)], dt))
+        except Exception:  # noqa: BLE001
+            pass
         SOLVES[0] = 0
         try:
             out = agg(A.to_tensor(mats[h], dt))
